@@ -11,7 +11,7 @@ EXPLANATION = (
     "R03a: dimensional consistency of every unit branch of Model.update_links (per-step fraction is dimensionless, N on the source-compartment branch), of "
     "Link.update / TimedLink.update / resolve_outflows (flows are people), with the branch set exhaustive over {rate, probability, number, duration} and "
     "proportion excluded by the same constant the framework validator uses.  R03b: no int()/ceil/floor applied directly to a raw float quotient by the step "
-    "size on the time-grid path (ProjectSettings.tvec, sim_end setter and their helpers).  Equality of trajectories with a reference implementation and "
+    "size on the time-grid path (ProjectSettings.tvec, sim_end setter and their helpers).  R03c: the per-link fraction is the bare unit conversion - no clamp, min/max or rounding is applied to an individual fraction before the fractions of a compartment are summed and rescaled together (clipping one fraction first changes the split between competing outflows). Equality of trajectories with a reference implementation and "
     "numeric constants are not decided."
 )
 
@@ -29,6 +29,7 @@ def run(ctx):
     repo = ctx.repo
     ctx.each(r03a, ctx, repo)
     ctx.each(r03b, ctx, repo)
+    ctx.each(r03c, ctx, repo)
 
 
 def unit_consts_in_test(test, pv):
@@ -192,3 +193,42 @@ def thorough(ctx):
 
     sweeps.discretisation_sweep(ctx, ctx.repo, "R03b")
     sweeps.pyflakes_crossref(ctx, ctx.repo)
+
+
+CLAMPS = {"min", "max", "np.minimum", "np.maximum", "np.clip", "round", "np.round", "np.floor", "np.ceil", "abs", "np.abs", "np.fmin", "np.fmax"}
+
+
+def r03c(ctx, repo):
+    ctx.rule("R03c", "the value stored in link._cache by update_links is pure arithmetic of the parameter value, dt, timescale and source popsize: no clamp / rounding of an individual fraction (over-subscription is resolved jointly in resolve_outflows)")
+    from .c02 import _transition_var
+
+    ul = repo.func("model", "Model.update_links")
+    loop, pv, x, xdef = _transition_var(ul)
+    rd = K.rdefs(repo, ul)
+    n = 0
+    for s_ in ast.walk(loop):
+        if not (isinstance(s_, ast.Assign) and isinstance(s_.targets[0], ast.Attribute) and s_.targets[0].attr == "_cache"):
+            continue
+        n += 1
+        exprs = [(s_.value, s_)]
+        seen = set()
+        bad = None
+        while exprs and bad is None:
+            e, at = exprs.pop()
+            for node in ast.walk(e):
+                if isinstance(node, ast.Call):
+                    fn = ast.unparse(node.func)
+                    if fn in CLAMPS:
+                        bad = (node, at)
+                        break
+                if isinstance(node, ast.Name) and node.id not in seen and node.id != x:
+                    seen.add(node.id)
+                    for d in rd.reaching_at_stmt(at, node.id):
+                        ds = rd.def_stmt(d)
+                        if isinstance(ds, ast.Assign):
+                            exprs.append((ds.value, ds))
+        if bad is not None:
+            ctx.fail("R03c", ul, bad[1], "the fraction for one link is passed through `%s` before the fractions of the compartment are combined: a fraction above 1 is clipped on its own, so competing outflows are no longer divided by their common sum (and a single large rate no longer empties the compartment in proportion)" % ast.unparse(bad[0])[:80])
+        else:
+            ctx.ok("R03c", ul, "`%s` is the bare conversion" % norm(s_)[:60], s_)
+    ctx.require(n >= 5, "R03c: fewer _cache stores (%d) than confirmed (5)" % n)
